@@ -78,29 +78,12 @@ OFFSET_BOUNDS = (-10.0, 10.0)
 
 
 def _construct_eom(Tnucl, hydro_attrs, thermo_attrs, nbrFields, errTol, pressRelErrTol, maxIterations, forceImproveConvergence=False):
-    """A real EOM built by its REAL constructor around stand-in collaborators (instances of the real classes created without
-    their own constructors, carrying only the attributes / methods the scenario defines) and a real small grid and
-    BoltzmannSolver. Nothing of the EOM's own attribute layout is assumed by the harness, so a refactoring of its internals
-    (e.g. converting the bounds once in the constructor) cannot raise a false alarm."""
-    import WallGo
-    from WallGo.boltzmann import BoltzmannSolver
-    from WallGo.equationOfMotion import EOM
-    from WallGo.grid3Scales import Grid3Scales
-    from WallGo.hydrodynamics import Hydrodynamics
-    from WallGo.thermodynamics import Thermodynamics
+    """See vmc.wg.construct_eom: the EOM is built by its real constructor around stand-in collaborators."""
+    from .. import wg
 
-    grid = Grid3Scales(5, 3, 5.0, 5.0, 1.0, 1.0)
-    bs = BoltzmannSolver(grid)
-    hyd = Hydrodynamics.__new__(Hydrodynamics)
-    for k, v in hydro_attrs.items():
-        setattr(hyd, k, v)
-    th = Thermodynamics.__new__(Thermodynamics)
-    th.Tnucl = Tnucl
-    for k, v in thermo_attrs.items():
-        setattr(th, k, v)
-    return EOM(bs, th, hyd, grid, nbrFields, 1.0, list(THICKNESS_BOUNDS), list(OFFSET_BOUNDS), includeOffEq=False,
-               forceEnergyConservation=True, forceImproveConvergence=forceImproveConvergence, errTol=errTol,
-               maxIterations=maxIterations, pressRelErrTol=pressRelErrTol)
+    return wg.construct_eom(Tnucl=Tnucl, hydro_attrs=hydro_attrs, thermo_attrs=thermo_attrs, nbrFields=nbrFields, thicknessBounds=THICKNESS_BOUNDS,
+                            offsetBounds=OFFSET_BOUNDS, forceEnergyConservation=True, forceImproveConvergence=forceImproveConvergence,
+                            errTol=errTol, maxIterations=maxIterations, pressRelErrTol=pressRelErrTol)
 
 
 def _env_run(law_kind, vstar, errTol, vmin, vmax, script):
